@@ -27,7 +27,7 @@ def run(ctx):
               "OrderBook::create_order writes only the order table (one push)", "OrderBook::create_order writes %s" % sorted(s["writes"]))
     mcreate = m.market_fn("create_order")
     s = E.summary(mcreate)
-    ctx.check(s["writes"] == {(1, ("order_books", "[]", m.f_orders))} and not s["unknown"], "effects", "Market::create_order", ctx.loc(mcreate),
+    ctx.check(s["writes"] == {(1, (m.market_books_field(), "[]", m.f_orders))} and not s["unknown"], "effects", "Market::create_order", ctx.loc(mcreate),
               "Market::create_order writes only order_books[asset].orders", "Market::create_order writes %s" % sorted(s["writes"]))
     env_rules(ctx, m, (("Env", m.env_fn, "order_book"), ("MarketEnv", m.menv_fn, "market")))
 
@@ -41,7 +41,7 @@ def env_rules(ctx, m, owners, submissions=True):
         if qf is None:
             ctx.lost("effects", owner + "::step queue field")
             continue
-        table = (obj, m.f_orders) if owner == "Env" else (obj, "order_books", "[]", m.f_orders)
+        table = (obj, m.f_orders) if owner == "Env" else (obj, m.market_books_field(), "[]", m.f_orders)
         for name in ("place_order", "cancel_order", "modify_order"):
             f = getter(name)
             s = E.summary(f)
